@@ -66,9 +66,18 @@ def run(tier):
         case = conc_case(rng, rng.choice([4, 6, 8]), rng.choice([150, 300]) if not thorough else rng.choice([300, 600]))
         batches.append(("h%d" % i, case, {"GOMAXPROCS": str([1, 2, 4, 16][i % 4])}))
 
+    # a memstore of tens of MiB: its flush takes long enough for readers to run between every two steps of the flusher (table written, log file
+    # removed, table opened, table installed) - the store must stay readable until its table is installed
+    for i in range(3 if thorough else 1):
+        u = dbgen.Uniq()
+        w = [{"op": "put", "k": j, "v": u.next("w"), "pad": 5500000} for j in range(7)] + [{"op": "put", "k": 7, "v": u.next("w"), "pad": 10} for j in range(30)]   # the 7th Put rotates
+        rd = [[x for _ in range(1500) for x in ({"op": "get", "k": rng.randrange(8)}, {"op": "sleep", "us": 400})] for _ in range(3)]   # about a second of polling
+        batches.append(("bigstore%d" % i, [dbgen.open_step(2, 1 << 30, 1000, mem=34 << 20, bg=True, interval_us=1000), {"op": "par", "clients": [w] + rd},
+                                           {"op": "getall", "k": 8}, {"op": "close"}], {"GOMAXPROCS": "16"}))
+
     def do(b):
         name, case, env = b
-        trace = dbrun.run_db_batch(binary, "C05-" + name, [case], gates=True, seed=SEED + len(name), env=env, timeout=240)
+        trace = dbrun.run_db_batch(binary, "C05-" + name, [case], gates=not name.startswith("bigstore"), seed=SEED + len(name), env=env, timeout=240)
         nok, bad, r = dbrun.judge_db(trace, o, "white-box " + name)
         lin = trace + ".lin"
         index = dbrun.project_per_key(trace, lin)
